@@ -42,7 +42,7 @@ It is meant to hold over: {p['quantifier']['text']}
 Code it is anchored in: {anchors}
 
 TASK
-Find inputs, call sequences, option settings, schedules or fault sequences for which the UNCHANGED tree violates the property as stated, and demonstrate each with a Go test that FAILS on the unchanged tree (and would pass once the defect is repaired: assert what the property demands, not what the code does). This tree has been through two rounds of exactly this exercise and about a hundred repairs; the easy things are gone, and some of the repairs themselves are recent and little exercised (look at `git log --oneline | head -90`: every commit starting with "fix:" is one; a repair that is incomplete, or that broke something next to it, is a first-class finding). What paid off before, and is worth pushing further:
+Find inputs, call sequences, option settings, schedules or fault sequences for which the UNCHANGED tree violates the property as stated, and demonstrate each with a Go test that FAILS on the unchanged tree (and would pass once the defect is repaired: assert what the property demands, not what the code does). This tree has been through four rounds of exactly this exercise and about a hundred and fifty repairs; the easy things are gone, and some of the repairs themselves are recent and little exercised (look at `git log --oneline | head -160`: every commit starting with "fix:" is one; a repair that is incomplete, or that broke something next to it, is a first-class finding). What paid off before, and is worth pushing further:
   * options and configurations nobody varies (server.With..., client options, environment switches, less common transports: netpoll vs standard, TLS / connections without ReaderFrom),
   * a SECOND step on the same object (setter after getter, a write after the header block left, reuse of a pooled object, retry paths, error paths that reset state),
   * other spellings of the same thing (case, token lists, escapes, empty values, lenient forms hertz itself accepts: bare LF, tabs, extensions; boundary sizes 4095/4096/4097, 8192/8193, integer limits),
